@@ -87,6 +87,16 @@ CHECKS["C11"] = dict(
          "attributes / presence; the directed argument decides only when the key is absent; custom attrs['id'].",
     design="4 C11", technique="TLA+ derived-graph operators; TLC validation of recorded write/read lines on TLC-generated states")
 
+CHECKS["C18"] = dict(
+    text="TLC enumerates every line sequence of length <= 3 over a pool of line shapes (valid 3/4-column rows, event rows, empty, "
+         "whitespace-only, comment-only, short rows, trailing comments, extra columns, unconvertible fields), proves that the "
+         "implementation-shaped parser model equals the reference reading and skips noise, and dumps the cases; each case is "
+         "rendered to text and fed, with its clean rows, to the real parse_snapshots / parse_interactions; TLC judges the two "
+         "recorded graphs (same result kind and raw observation, presence = reference fold, TypeError for unconvertible fields). "
+         "keys=True goes through a real file and is judged against the rank-substituted rows; compact_timeslot is judged as a "
+         "strictly increasing bijection on all 256 subsets of -3..4 and seeded large sets.",
+    design="4 C18", technique="TLC-enumerated input domain replayed into the real parsers; TLC validation with the TLA+ reference reading")
+
 NOT_YET = {}
 
 TITLES = {}
